@@ -286,15 +286,19 @@ def run_shard(sh):
                         {k: v.hex() for k, v in got.items()}, body[4 + wl + al:].hex(), json.dumps(gen.norm(post))[:300]), rep)
         elif kind == 'rr':
             afi, safi = rng.choice([(1, 1), (2, 1), (1, 128), (25, 70), (1, 133)])
-            code, jb = w.rest('POST', 'send/route-refresh', json_body={'afi': afi, 'safi': safi, 'res': 0})
+            rres = rng.choice([0, 0, 1, 2, 255])
+            rr_body = {'afi': afi, 'safi': safi, 'res': rres}
+            if rres == 0 and rng.random() < 0.3:
+                rr_body.pop('res')            # the reserved octet defaults to 0
+            code, jb = w.rest('POST', 'send/route-refresh', json_body=rr_body)
             new = [d for _, d in tr.written[n0:]]
             advertised = (afi, safi) in ((1, 1), (2, 1))
             tc = 128 if any(c[0] == 128 for c in caps) else 5
             ok = isinstance(jb, dict) and jb.get('status') is True
             res['counters']['sends_compared'] += 1
-            if ok and (len(new) != 1 or new[0] != refenc.route_refresh(afi, safi, 0, tc)):
-                bad('send-not-faithful', ['send:route-refresh'], 'route-refresh %d/%d answered status true; wire has %s, expected %s' % (
-                    afi, safi, [d.hex() for d in new], refenc.route_refresh(afi, safi, 0, tc).hex()), rep)
+            if ok and (len(new) != 1 or new[0] != refenc.route_refresh(afi, safi, rres, tc)):
+                bad('send-not-faithful', ['send:route-refresh'] + (['res:nonzero'] if rres else []), 'route-refresh %d/%d (reserved octet %d) answered status true; wire has %s, expected %s' % (
+                    afi, safi, rres, [d.hex() for d in new], refenc.route_refresh(afi, safi, rres, tc).hex()), rep)
             if ok != advertised:
                 bad('route-refresh-gate', ['advertised:%s' % advertised], 'route-refresh for %d/%d (peer advertised it: %s) answered %s' % (afi, safi, advertised, str(jb)[:100]), rep)
             if not ok and new:
@@ -329,7 +333,15 @@ def run_shard(sh):
         else:
             # malformed requests must not write anything
             post = rng.choice([{'binary_data': 'abc'}, {'binary_data': ''}, {'binary_data': 'zz'}, {'binary_data': 12}])
-            code, jb = w.rest('POST', 'send/bin_update', json_body=post)
+            q = None
+            if rng.random() < 0.5:
+                # a 'human' dump (lines of hex pairs) that lost a digit or caught a stray character: refused, nothing written
+                good = refenc.update({1: 0, 2: [[2, [65002]]], 3: '10.0.0.1'}, ['192.0.2.0/24'], asn4=asn4).hex()
+                pairs = ' '.join(good[i_:i_ + 2] for i_ in range(0, len(good), 2))
+                k_ = rng.randrange(40, len(pairs) - 2)
+                broken = rng.choice([pairs[:k_] + pairs[k_ + 1:] if pairs[k_] != ' ' else pairs[:k_ + 1] + pairs[k_ + 2:], pairs[:k_] + 'g' + pairs[k_ + 1:] if pairs[k_] != ' ' else pairs + ' x', pairs + ' f'])
+                post, q = {'binary_data': [broken[i_:i_ + 48] for i_ in range(0, len(broken), 48)]}, {'format': 'human'}
+            code, jb = w.rest('POST', 'send/bin_update', json_body=post, query=q)
             new = [d for _, d in tr.written[n0:]]
             if new or (isinstance(jb, dict) and jb.get('status') is True):
                 bad('failed-send-wrote', ['send:bin_update-malformed'], 'malformed bin_update %s answered %s and wrote %d frames' % (post, str(jb)[:100], len(new)), rep)
